@@ -28,6 +28,12 @@ type c12Case struct {
 	Excluded []string    `json:"excluded,omitempty"`
 	Global   *bq.Global  `json:"global,omitempty"`
 	AsAlias  []bool      `json:"as_alias,omitempty"`
+	// Having: an optional HAVING comparison applied to BOTH queries (it decides which rows
+	// qualify; ORDER BY and LIMIT must act on its result, not before it)
+	HavingCol int            `json:"having_col,omitempty"`
+	HavingCmp string         `json:"having_cmp,omitempty"`
+	HavingLit *model.LitSpec `json:"having_lit,omitempty"`
+	HavingNot bool           `json:"having_not,omitempty"`
 }
 
 // c12Data: negative and fractional numbers, floats differing after the 6th
@@ -144,6 +150,39 @@ func genC12(t *rapid.T) c12Case {
 	if gen.Maybe(t, 10, "hasglobal") {
 		c.Global = g.GenGlobal()
 	}
+	if gen.Maybe(t, 30, "hashaving") {
+		// compare an object column with a constant of the kind its predicate id mostly carries
+		c.HavingCol = -1
+		all := bq.AllBindings(c.Clauses)
+		for _, cl := range c.Clauses {
+			if cl.P.Pred == nil || cl.O.Binding == "" {
+				continue
+			}
+			var pool []model.LitSpec
+			switch cl.P.Pred.ID {
+			case "p":
+				pool = u.Lits[:7]
+			case "q":
+				pool = u.Lits[7:14]
+			case "knows":
+				pool = u.Lits[14:]
+			}
+			for i, b := range all {
+				if b == cl.O.Binding && len(pool) > 0 {
+					c.HavingCol = i
+					l := gen.Pick(t, pool, "having-const")
+					c.HavingLit = &l
+				}
+			}
+			if c.HavingLit != nil {
+				break
+			}
+		}
+		if c.HavingLit != nil {
+			c.HavingCmp = gen.Pick(t, []string{"<", ">", "=", ">", "<"}, "having-cmp")
+			c.HavingNot = gen.Maybe(t, 20, "having-not")
+		}
+	}
 	return c
 }
 
@@ -172,6 +211,13 @@ func (c c12Case) build() (base, full bq.Query, keys []bq.OrderKey) {
 			}
 			base.Proj = append(base.Proj, p)
 		}
+	}
+	if c.HavingLit != nil && !c.Grouped && c.HavingCol >= 0 && c.HavingCol < len(base.Proj) {
+		e := &bq.Expr{Op: "cmp", Left: base.Proj[c.HavingCol].OutName(), Cmp: c.HavingCmp, RLit: c.HavingLit}
+		if c.HavingNot {
+			e = &bq.Expr{Op: "not", A: e}
+		}
+		base.Having = e
 	}
 	full = base
 	full.Proj = append([]bq.Proj{}, base.Proj...)
@@ -391,6 +437,12 @@ func checkC12(ctx *pbt.Ctx, c c12Case) error {
 	}
 	if c.Grouped {
 		ctx.Label("grouped")
+	}
+	if base.Having != nil {
+		ctx.Label("having")
+		if c.Limit > 0 && c.Limit < len(U) && len(keys) > 0 {
+			ctx.Label("having+order+limit")
+		}
 	}
 	_ = strings.Join
 	return nil
